@@ -792,6 +792,7 @@ func main() {
 	args := hx.ParseArgs()
 	meta := hx.NewMeta("h_chan", args.Seed, args.Tier)
 	devnull, _ := os.OpenFile(os.DevNull, os.O_WRONLY, 0)
+	hx.KeepStderr = os.Stderr
 	os.Stderr = devnull
 	explore(args, meta)
 }
